@@ -3,6 +3,8 @@ from .common import hx
 
 VOCAB = ['a', 'ab', 'abc', 'b', 'users', 'users2', 'api', 'apix', 'v1', 'x', 'y', 'index.html', 'a-b', 'a_b', 'a.b', '0']
 METHODS = ['GET', 'PUT', 'POST', 'PATCH', 'DELETE']
+# a node with many static children: names that are another name plus '-', '.', a digit or a letter (every byte order around '/' = 0x2F)
+WIDE = VOCAB + ['api-docs', 'api.json', 'api0', 'apis', 'users.json', 'users-old', 'users_0', 'v1.1', 'v10', 'v1-beta', 'ab-c', 'abc.d', 'x-y', 'x.y', 'y0', 'b-0', 'b.0', 'index', 'index.htm', 'a-0', 'a.0', 'a0', 'aa']          # (a segment ends with a letter or digit: the framework refuses the others)
 
 
 def lit(rng, depth_max=3, allow_root=True, param_rate=0.3, pnames=None):
@@ -101,6 +103,13 @@ def gen_app(rng, ids, depth=0, max_routes=6, fangs=True, local=True, mounts=True
                 item = {'route': full, 'methods': rng.sample(METHODS, rng.choice([1, 2, 3])), 'h': ids.handler(), 'local': []}
                 if local and rng.random() < 0.25: item['local'] = [ids.fang() for _ in range(rng.choice([1, 2]))]
                 app['items'].append(item)
+    if depth == 0 and rng.random() < 0.12:          # a wide node: 9-16 static routes of one segment, in every method tree
+        for v in rng.sample(WIDE, rng.choice([9, 10, 12, 16])):
+            key = (v,)
+            if key in seen: continue
+            if not free and any(conflict(mp, [v.encode()]) for mp in mount_pre): continue
+            seen.add(key)
+            app['items'].append({'route': '/' + v, 'methods': list(METHODS) if rng.random() < 0.8 else rng.sample(METHODS, 3), 'h': ids.handler(), 'local': []})
     rng.shuffle(app['items'])
     if free and depth == 0: dedupe(app)
     return app
